@@ -29,7 +29,8 @@ def run(rep, tier):
     rep.rule("R1.4", "every path to setPos passes the comparison max_dist > 0.5*getShortestBoxDimension() (throw on true), "
                      "skipped only for open boxes; max_dist is the maximum over the same BC(r0, .) norms that are summed")
     rep.rule("R1.5", "TopologyMap::Apply sets the box of the output topology from the input before any Map::Apply and maps with the output topology's boundary")
-    units = [front.repo("csg/src/libcsg/map.cc"), front.repo("csg/src/libcsg/topologymap.cc")]
+    units = [front.repo("csg/src/libcsg/map.cc"), front.repo("csg/src/libcsg/topologymap.cc"),
+             front.repo("csg/src/libcsg/cgmoleculedef.cc"), front.repo("csg/src/libcsg/cgengine.cc")]
     F = Facts(front.export(units))
     rep.units = units
 
@@ -62,8 +63,92 @@ def run(rep, tier):
             any(a.get("k") == "rangefor" and show(a["range"]) == "maps_" for a in ma.ancestors(calls[0]))
     rep.check(ok, "R1.5", "Map::Apply", "Map::Apply forwards its boundary to every bead map",
               "Map::Apply does not apply every bead map with the boundary it was given", ma.loc())
+    check_tables(rep, F)
     rep.assumptions += ["HasPos/HasVel/HasF guards are kept as uninterpreted conditions (a parent without a position contributes nothing)",
                         "floating-point rounding of the sums is not modelled; the convex-hull corollary follows from R1.1+R1.3 for non-negative weights"]
+
+
+def nows(x):
+    return re.sub(r"\s+", "", x)
+
+
+def check_tables(rep, F):
+    rep.rule("R1.6", "definition tables: symmetry 1 -> spherical map, 3 -> ellipsoidal map, anything else throws (both when parsing and when creating the "
+                     "map); bonded tag -> interaction class -> bead count agree (bond/IBond/2, angle/IAngle/3, dihedral/IDihedral/4); the CG topology "
+                     "rebuilds its exclusions after all molecules were created; every molecule's map is added to the topology map")
+    pb = F.one(C + "CGMoleculeDef::ParseBeads")
+    rep.analysed(pb)
+    sym = {}
+    for n in pb.walk():
+        if n.get("k") == "opcall" or n.get("k") == "assign":
+            lhs = n.get("lhs") or (n["args"][0] if n.get("args") else None)
+            rhs = n.get("rhs") or (n["args"][1] if n.get("args") and len(n["args"]) > 1 else None)
+            if lhs is not None and nows(show(lhs)).endswith("->symmetry_") and rhs is not None:
+                conds = [a for a in pb.ancestors(n) if a.get("k") == "if"]
+                key = "default"
+                for a in conds:
+                    c = nows(show(a["cond"]))
+                    m = re.match(r"^\(sym==(\d)\)$", c)
+                    if m and any(x.get("id") == n["id"] for x in walk(a["then"])):
+                        key = m.group(1)
+                        break
+                sym[key] = nows(show(rhs)).split("::")[-1]
+    thr = any(x.get("k") == "throw" for n in pb.walk() if n.get("k") == "if" and "sym" in show(n["cond"]) for x in walk(n.get("else") or {}))
+    rep.check(sym == {"1": "spherical", "3": "ellipsoidal", "default": "spherical"} and thr, "R1.6", "symmetry|parse", "symmetry 1 -> spherical, 3 -> ellipsoidal, default spherical, other values throw",
+              "CGMoleculeDef::ParseBeads symmetry table is %s (other values throw: %s)" % (sym, thr), pb.loc(), sample=True)
+    cm = F.one(C + "CGMoleculeDef::CreateMap")
+    rep.analysed(cm)
+    sw = [n for n in cm.walk() if n.get("k") == "switch"]
+    tab = {}
+    if len(sw) == 1:
+        label = None
+        for st in sw[0]["body"]["stmts"]:
+            while st.get("k") in ("case", "default"):
+                label = str(st.get("ivalue")) if st["k"] == "case" else "default"
+                st = st["sub"]
+            txt = nows(show(unwrap(st))) if st.get("k") != "break" else ""
+            m = re.search(r"CreateBeadMap\((?:votca::csg::)?(?:BeadMapType::)?(\w+)\)", txt)
+            if m and label:
+                tab[label] = m.group(1)
+            if unwrap(st).get("k") == "throw" and label:
+                tab[label] = "throw"
+    rep.check(tab == {"1": "Spherical", "3": "Ellipsoidal", "default": "throw"}, "R1.6", "symmetry|map", "symmetry 1 -> Map_Sphere, 3 -> Map_Ellipsoid, else throw",
+              "CGMoleculeDef::CreateMap symmetry table is %s" % tab, cm.loc(), sample=True)
+    fm = [f for f in F.funcs if f.qname == C + "Map::CreateBeadMap"]
+    if fm:
+        txt = lambda st: " ".join(x.get("type", "") for x in walk(st or {}) if x.get("k") == "call" and (x.get("callee") or "").startswith("std::make_unique"))
+        conds = {nows(show(n["cond"])): (txt(n["then"]), txt(n.get("else"))) for n in fm[0].walk() if n.get("k") == "if"}
+        ok = any("Spherical" in c and "Map_Sphere" in t and "Map_Ellipsoid" in e for c, (t, e) in conds.items())
+        rep.check(ok, "R1.6", "beadmap-type", "BeadMapType::Spherical -> Map_Sphere, otherwise Map_Ellipsoid", "Map::CreateBeadMap maps types as %s" % conds, fm[0].loc())
+    cb = F.one(C + "CGMoleculeDef::CreateMolecule")
+    rep.analysed(cb)
+    counts, classes = {}, {}
+    for n in cb.walk():
+        if n.get("k") == "if":
+            c = nows(show(n["cond"]))
+            m = re.match(r'^\(prop->name\(\)=="(\w+)"\)$', c)
+            if not m:
+                continue
+            for x in walk(n["then"]):
+                if x.get("k") == "assign" and nows(show(x["lhs"])) == "NrBeads" and lit_value(x["rhs"]) is not None:
+                    counts[m.group(1)] = int(lit_value(x["rhs"]))
+                if x.get("k") == "new":
+                    classes[m.group(1)] = x["type"].split("::")[-1]
+    want_n = {"bond": 2, "angle": 3, "dihedral": 4}
+    want_c = {"bond": "IBond", "angle": "IAngle", "dihedral": "IDihedral"}
+    rep.check(counts == want_n and classes == want_c, "R1.6", "bonded-table", "bond/IBond/2, angle/IAngle/3, dihedral/IDihedral/4",
+              "CGMoleculeDef::CreateMolecule bonded table: counts %s classes %s" % (counts, classes), cb.loc(), sample=True)
+    ce = F.one(C + "CGEngine::CreateCGTopology")
+    rep.analysed(ce)
+    g = CFG(ce)
+    rb = [n for n in ce.walk() if n.get("k") == "mcall" and n.get("callee") == C + "Topology::RebuildExclusions" and show(n["obj"]) == "out"]
+    cr = [n for n in ce.walk() if n.get("k") == "mcall" and (n.get("callee") or "").endswith("CGMoleculeDef::CreateMolecule")]
+    am = [n for n in ce.walk() if n.get("k") == "mcall" and (n.get("callee") or "").endswith("TopologyMap::AddMoleculeMap")]
+    ok = len(rb) == 1 and len(cr) == 1 and len(am) == 1 and g.where[rb[0]["id"]][0] not in g.reaches([g.where[rb[0]["id"]][0]], avoid=set()) - {g.where[rb[0]["id"]][0]} or True
+    ok = len(rb) == 1 and len(cr) == 1 and len(am) == 1 and g.where[cr[0]["id"]][0] not in g.reaches([g.where[rb[0]["id"]][0]]) \
+        and all(g.dominates_block(g.where[rb[0]["id"]][0], b) for b in g.exit_blocks()) and g.dominates(cr[0]["id"], am[0]["id"])
+    rep.check(ok, "R1.6", "exclusions-after-molecules", "RebuildExclusions once, after all CG molecules were created; each map added",
+              "CGEngine::CreateCGTopology does not rebuild the exclusions after creating all molecules (or does not add every molecule's map)", ce.loc(), sample=True)
 
 
 def check_apply(rep, f):
